@@ -723,9 +723,10 @@ fn main() {
             exhaustive_docs += 1;
         }
     };
-    for a in &items1 {
+    let items2 = if thorough { &items1 } else { &items3 };
+    for a in items2 {
         sweep(&[a.clone()], &dflt, &mut render, &mut meta);
-        for b in &items1 {
+        for b in items2 {
             sweep(&[a.clone(), b.clone()], &dflt, &mut render, &mut meta);
         }
     }
@@ -739,7 +740,7 @@ fn main() {
                     if three_total % 4 == 0 {
                         sweep(&[a.clone(), b.clone(), c.clone()], &alt, &mut render, &mut meta);
                     }
-                } else if rng.chance(1, 40) {
+                } else if rng.chance(1, 60) {
                     let dl = if rng.chance(1, 3) { &alt } else { &dflt };
                     sweep(&[a.clone(), b.clone(), c.clone()], dl, &mut render, &mut meta);
                 }
@@ -749,7 +750,7 @@ fn main() {
     drop(sweep);
 
     // ---- random documents up to 12 items under every delimiter set; each also through the lexer
-    let n_rand = if thorough { 30_000 } else { 1_300 };
+    let n_rand = if thorough { 30_000 } else { 1_000 };
     let mut respell_checked = 0usize;
     for i in 0..n_rand {
         let dl = &sets[i % sets.len()];
@@ -826,7 +827,7 @@ fn main() {
     // ---- delims: accepted sets, and sets broken in every way validate looks at
     let mut delim_cases: Vec<Dl> = sets.clone();
     let parts = ["", "{", "{%", "{%%", "\u{e9}", "\u{65e5}", "a\u{e9}", "{{", "{#", "%}", "--"];
-    for _ in 0..(if thorough { 3000 } else { 400 }) {
+    for _ in 0..(if thorough { 3000 } else { 200 }) {
         let mut d = rng.pick(&sets).clone();
         let k = 1 + rng.below(2);
         for _ in 0..k {
@@ -854,8 +855,8 @@ fn main() {
     meta.extra.insert("render_docs_not_reading_back".into(), json!(NOT_READING_BACK.load(std::sync::atomic::Ordering::Relaxed)));
     meta.extra.insert("exhaustive_docs".into(), json!(exhaustive_docs));
     meta.extra.insert("exhaustive_space".into(), json!(format!(
-        "all documents of <= 2 items over {} items (6 texts, expr/tag/comment x 4 marker placements, raw x 16 x 2 bodies), default delimiters; {} of the {} documents of 3 items over {} items (raw x 16 x 1 body)",
-        items1.len(), if thorough { "all" } else { "a 1/40 sample" }, three_total, items3.len())));
+        "all documents of <= 2 items over {} items (6 texts, expr/tag/comment x 4 marker placements, raw x 16 x {} bodies), default delimiters; {} of the {} documents of 3 items over {} items (raw x 16 x 1 body), default delimiters (+ every 4th under <% %> << >> <# #> in the thorough tier)",
+        items2.len(), if thorough { 2 } else { 1 }, if thorough { "all" } else { "a 1/60 sample" }, three_total, items3.len())));
     if thorough {
         meta.extra.insert("exhaustive_le3".into(), json!(true));
     }
